@@ -96,6 +96,7 @@ type GenOpts struct {
 	Failures    bool // also generate refused operations (denied appends, rejected merges) and forks
 	Extra       bool // also generate setident / reload steps (C04)
 	SubsetForks bool // with Failures: forks opened with only ONE of the source's heads (C05: such a log holds entries outside the ancestry of its heads; nothing may vanish from it)
+	BigFanout   bool // a third of the "manyheads" histories have 66-73 one-entry replicas merged into one (more than 64 heads at once)
 	Huge        bool // a third of the histories have replicas whose clocks start at 2^60, whether or not there are refused operations
 	HugeOften   bool // with Failures: half of the histories (not an eighth) have replicas whose clocks start at 2^60
 	Hostile     bool // with Failures: also merges of logs that hold a validly signed entry of ANOTHER log id in the middle of their history (C02, C03; the loaders do not filter by log id, so monitors that rebuild logs from storage do not use it)
@@ -302,6 +303,9 @@ func Gen(seed int64, idx int, o GenOpts) *History {
 	case "manyheads":
 		// one long chain plus many short logs of other replicas: more heads than the pointer count
 		extra := 7 + rng.Intn(10)
+		if o.BigFanout && idx%3 == 2 {
+			extra = 66 + rng.Intn(8) // more concurrent heads than any small constant someone might have in mind (64 + a few)
+		}
 		h.Replicas = 1 + extra
 		R = h.Replicas
 		h.ReplicaWriter = nil
@@ -309,6 +313,9 @@ func Gen(seed int64, idx int, o GenOpts) *History {
 			h.ReplicaWriter = append(h.ReplicaWriter, r%h.Writers)
 		}
 		n = 30 + extra*3
+		if extra > 60 {
+			n = 40 + extra*5 // room for at least one round in which every replica appends and all are merged
+		}
 		for c := 8 + rng.Intn(12); c > 0; c-- {
 			add(app(0))
 		}
@@ -327,7 +334,7 @@ func Gen(seed int64, idx int, o GenOpts) *History {
 		}
 		for c := 0; c < 3; c++ {
 			for r := 1; r < R; r++ {
-				if rng.Intn(2) == 0 {
+				if rng.Intn(2) == 0 || extra > 60 {
 					add(app(r))
 				}
 			}
